@@ -1,11 +1,13 @@
 #!/bin/bash
-export VERIF_EVIDENCE_DIR=${VERIF_EVIDENCE_DIR:-/verif/replays/evidence-changed-tree}
-# tools/try_patch.sh <patch.diff> <prop> [<prop>...] : apply a seeded change to /repo, run the checks, undo it.
-P="$1"; shift
-cd /repo || exit 9
-git diff --quiet || { echo "/repo is dirty"; exit 9; }
-git apply "$P" || { echo "patch does not apply"; exit 9; }
-trap 'git -C /repo checkout -- . ' EXIT
+# tools/try_patch.sh <patch.diff> <prop> [<prop>...] : run checks against a changed copy of /repo's HEAD (a scratch worktree
+# under /tmp, removed afterwards; /repo itself is not touched; evidence goes to replays/, not to evidence/).
+DIR="$(cd "$(dirname "$0")/.." && pwd)"
+P="$(realpath "$1")"; shift
+wt=/tmp/tp_$$
+git -C /repo worktree add -q --detach $wt HEAD || exit 9
+trap 'git -C /repo worktree remove --force '$wt'; git -C /repo worktree prune' EXIT
+git -C $wt apply "$P" || { echo "patch does not apply"; exit 9; }
+export VERIF_EVIDENCE_DIR="$DIR/replays/evidence-changed-tree"
 for prop in "$@"; do
-  (cd /verif && ./check "$prop" --tier "${TIER:-quick}" 2>&1 | tail -${LINES_OUT:-8}; echo "rc[$prop]=${PIPESTATUS[0]}")
+  (cd "$DIR" && VERIF_REPO=$wt ./check "$prop" --tier "${TIER:-quick}" 2>&1 | tail -${LINES_OUT:-8}; echo "rc[$prop]=${PIPESTATUS[0]}")
 done
